@@ -467,10 +467,17 @@ func (P *Program) declaredModNames(sp *FuncSpec, ms *ModSet) {
 		return
 	}
 	// conservative: the callee's inferred set (declared locations are a subset of it); ghost vars by name
+	onlyGhost := true
 	for _, it := range sp.Modifies {
 		if gf := P.ghostVar(it); gf != nil {
 			ms.Names["ghost|"+gf.Name] = true
+		} else if it != "nothing" {
+			onlyGhost = false
 		}
+	}
+	if onlyGhost && !sp.ModAll {
+		// the declared frame names ghost state only: no heap array is written
+		return
 	}
 	if fn := P.funcs[sp.Pkg+"::"+sp.Key]; fn != nil {
 		ms.merge(P.modSetOf(fn))
